@@ -144,7 +144,17 @@ def broadcast_ok(gname, attr, n, mode, scalar, vals):
     if mode != 0 and len(vals) != n:
         return False
     now = [getattr(m, ma) for m in members]
-    return now == expect and list(getattr(g, attr)) == now
+    if not (now == expect and list(getattr(g, attr)) == now):
+        return False
+    if n > 0:
+        # "reading returns the members' *current* values": change one member directly (not through the group) and read again
+        k = scalar % n
+        fresh = to_value(attr, 9000 + k)
+        setattr(members[k], ma, fresh)
+        now[k] = fresh
+        if list(getattr(g, attr)) != now:
+            return False
+    return True
 
 
 def _group_with_members(gname, n, extra):
@@ -231,6 +241,65 @@ def name_lookup_ok(gname, n, dup):
     except (ValueError, TypeError):
         pass
     return list(g.observers) == members
+
+
+def name_history_ok(gname, n, which, how, again):
+    """members stay retrievable by their *current* unique names after any of: a direct rename of one member, a rename through
+    group.names, replacing the member tuple (reversed) - each after earlier by-name lookups, optionally twice"""
+    G = group_class(gname)
+    _, omod, oname = GROUPS[gname]
+    base = getattr(importlib.import_module(omod), oname)
+
+    def mk():
+        if 'TargettedPixel' in gname:
+            return base(targets=[Sphere(0.1)])
+        return base()
+    members = [mk() for _ in range(n)]
+    for k, m in enumerate(members):
+        m.name = 'obs%d' % k
+    g = G(observers=members)
+    for m in members:               # earlier lookups (anything derived from the names is now filled in)
+        if g[m.name] is not m:
+            return False
+    rounds = 2 if again else 1
+    for r in range(rounds):
+        k = (which + r) % n if n else 0
+        new = 'renamed%d' % r
+        if n == 0:
+            break
+        old = members[k].name
+        if how == 0:
+            members[k].name = new
+        elif how == 1:
+            names = [m.name for m in members]
+            names[k] = new
+            g.names = names
+        elif how == 2:
+            members = list(reversed(members))
+            g.observers = members
+            k = n - 1 - k
+            members[k].name = new
+        else:
+            extra = mk()
+            extra.name = 'extra%d' % r
+            g.add_observer(extra)
+            members = members + [extra]
+            n = n + 1
+            members[k].name = new
+        if list(g.names) != [m.name for m in members] or list(g.observers) != members:
+            return False
+        for m in members:
+            try:
+                if g[m.name] is not m:
+                    return False
+            except ValueError:
+                return False
+        try:
+            g[old]
+            return False
+        except ValueError:
+            pass
+    return True
 
 
 def foreign_ok(gname, n):
